@@ -322,17 +322,30 @@ ItemSizes(P, cands) ==
 
 Sum(s) == LET RECURSIVE S(_) S(i) == IF i > Len(s) THEN 0 ELSE s[i] + S(i + 1) IN S(1)
 
-\* positions: cursor (in bits) at which each item is visited, single default bank
-RECURSIVE Positions(_, _, _, _, _)
-Positions(P, sizes, i, cur, acc) ==
+\* banks: index 1 is the built-in default bank, P.banks follow (Layout.tla records);
+\* an item [k |-> "bankdef" | "bank", n] makes bank n + 1 current
+DefaultBank == [unit |-> 8, addr |-> 0, size |-> -1, outp |-> 0, fill |-> FALSE, labelalign |-> 0]
+Banks(P) == <<DefaultBank>> \o (IF "banks" \in DOMAIN P THEN P.banks ELSE <<>>)
+
+\* where each item is visited: [b (bank), p (bit cursor in that bank)]; every bank
+\* keeps its own cursor; depth-0 symbols are label-aligned first
+RECURSIVE PositionsB(_, _, _, _, _, _)
+PositionsB(P, sizes, i, curs, cb, acc) ==
     IF i > Len(P.items) THEN acc
     ELSE LET it == P.items[i]
-             adv == CASE it.k \in {"instr", "data"} -> cur + Sum(sizes[i])
-                      [] it.k = "res" -> cur + it.n * 8
-                      [] it.k = "align" -> cur + BitsUntilAligned(cur, it.n)
-                      [] it.k = "addr" -> it.n * 8
-                      [] OTHER -> cur
-         IN Positions(P, sizes, i + 1, adv, Append(acc, cur))
+             nb == IF it.k \in {"bankdef", "bank"} THEN it.n + 1 ELSE cb
+             bk == Banks(P)[nb]
+             here == IF it.k \in {"label", "const"} THEN LabelAlignedPos(bk, curs[nb], it.lvl) ELSE curs[nb]
+             adv == CASE it.k \in {"instr", "data"} -> here + Sum(sizes[i])
+                      [] it.k = "res" -> here + it.n * bk.unit
+                      [] it.k = "align" -> AdvanceAlign(bk, here, it.n)
+                      [] it.k = "addr" -> AdvanceAddr(bk, it.n)
+                      [] OTHER -> here
+         IN PositionsB(P, sizes, i + 1, [curs EXCEPT ![nb] = adv], nb, Append(acc, [b |-> nb, p |-> here]))
+
+Positions(P, sizes) == PositionsB(P, sizes, 1, [k \in 1..Len(Banks(P)) |-> 0], 1, <<>>)
+AddrOfItem(P, pos, i) == AddressOf(Banks(P)[pos[i].b], pos[i].p)
+MisalignedItem(P, pos, i) == Misaligned(Banks(P)[pos[i].b], pos[i].p)
 
 \* user-defined functions (P.fns: sequence of [name, params, body]) are visible everywhere
 Fns(P) == IF "fns" \in DOMAIN P THEN P.fns ELSE <<>>
@@ -343,12 +356,15 @@ WithFns(P, env) ==
                             [t |-> "fn", params |-> f.params, body |-> f.body]
         ELSE env[x]]
 
-\* environment at item i: labels, constants known so far, $ / pc, context
-EnvAt(P, d, pos, symv, i) ==
+\* environment at item i: labels, constants known so far, $ / pc, context.
+\* pre = TRUE is the view of the pre-pass: no addresses yet ($ and pc are unknown).
+EnvAtX(P, d, pos, symv, i, pre) ==
     WithFns(P, [x \in DOMAIN symv \cup {"$", "pc", "#ctx"} |->
-                    IF x \in {"$", "pc"} THEN (IF pos[i] % 8 = 0 THEN IntV(pos[i] \div 8, -1) ELSE ErrV)
+                    IF x \in {"$", "pc"} THEN (IF pre THEN UnknownV
+                                               ELSE IF ~MisalignedItem(P, pos, i) THEN IntV(AddrOfItem(P, pos, i), -1) ELSE ErrV)
                     ELSE IF x = "#ctx" THEN CtxVal(d.ctxs[i])
                     ELSE symv[x]])
+EnvAt(P, d, pos, symv, i) == EnvAtX(P, d, pos, symv, i, FALSE)
 
 \* command-line defines: P.defines is a sequence of [name (full dotted name), v (value)]
 Defines(P) == IF "defines" \in DOMAIN P THEN P.defines ELSE <<>>
@@ -356,23 +372,59 @@ HasDefine(P, x) == \E k \in 1..Len(Defines(P)) : Defines(P)[k].name = x
 DefineOf(P, x) == Defines(P)[CHOOSE k \in 1..Len(Defines(P)) : Defines(P)[k].name = x].v
 
 \* one round of constant evaluation (constants may refer to each other in any order)
-RECURSIVE ConstRound(_, _, _, _, _)
-ConstRound(P, d, pos, symv, i) ==
+RECURSIVE ConstRoundX(_, _, _, _, _, _)
+ConstRoundX(P, d, pos, symv, i, pre) ==
     IF i > Len(P.items) THEN symv
-    ELSE IF P.items[i].k # "const" THEN ConstRound(P, d, pos, symv, i + 1)
-    ELSE IF HasDefine(P, d.names[i]) THEN ConstRound(P, d, pos, symv, i + 1)      \* a command-line define wins
-    ELSE LET x == Eval(P.items[i].e, EnvAt(P, d, pos, symv, i)).v IN
-         ConstRound(P, d, pos, [symv EXCEPT ![d.names[i]] = x], i + 1)
+    ELSE IF P.items[i].k # "const" THEN ConstRoundX(P, d, pos, symv, i + 1, pre)
+    ELSE IF HasDefine(P, d.names[i]) THEN ConstRoundX(P, d, pos, symv, i + 1, pre)      \* a command-line define wins
+    ELSE LET x == Eval(P.items[i].e, EnvAtX(P, d, pos, symv, i, pre)).v IN
+         ConstRoundX(P, d, pos, [symv EXCEPT ![d.names[i]] = x], i + 1, pre)
 
-RECURSIVE ConstFix(_, _, _, _, _)
-ConstFix(P, d, pos, symv, n) ==
-    LET nx == ConstRound(P, d, pos, symv, 1) IN
-    IF nx = symv \/ n = 0 THEN nx ELSE ConstFix(P, d, pos, nx, n - 1)
+RECURSIVE ConstFixX(_, _, _, _, _, _)
+ConstFixX(P, d, pos, symv, n, pre) ==
+    LET nx == ConstRoundX(P, d, pos, symv, 1, pre) IN
+    IF nx = symv \/ n = 0 THEN nx ELSE ConstFixX(P, d, pos, nx, n - 1, pre)
+ConstFix(P, d, pos, symv, n) == ConstFixX(P, d, pos, symv, n, FALSE)
+
+(***************************************************************************)
+(* Directive arguments.  #res / #align / #addr take an expression (item    *)
+(* field e; e.k = "none": the literal n).  In a size-static program it is  *)
+(* decided by literals and by constants that do not depend on addresses:   *)
+(* labels, $ and pc are unknown to it.  A false assert() in it is an       *)
+(* error of the program, as anywhere else.                                 *)
+(***************************************************************************)
+HasArgExpr(it) == it.k \in {"res", "align", "addr"} /\ it.e.k # "none"
+DirArgs(P, d) ==
+    LET n == Len(P.items)
+        labels == {i \in 1..n : P.items[i].k = "label"}
+        consts == {i \in 1..n : P.items[i].k = "const"}
+        sym0 == [x \in {d.names[i] : i \in labels \cup consts} |->
+                    IF HasDefine(P, x) /\ (\E i \in consts : d.names[i] = x) THEN DefineOf(P, x) ELSE UnknownV]
+        symv == ConstFixX(P, d, <<>>, sym0, Cardinality(consts) + 1, TRUE)
+    IN [i \in 1..n |-> IF HasArgExpr(P.items[i]) THEN Eval(P.items[i].e, EnvAtX(P, d, <<>>, symv, i, TRUE)).v
+                       ELSE IntV(P.items[i].n, -1)]
+\* "ok" | "err" | "skip" for one evaluated directive argument
+DirArgStatus(x) ==
+    CASE x.t \in {"failed", "err"} -> "err"
+      [] x.t = "int" -> (IF x.v < 0 THEN "err" ELSE "ok")
+      [] x.t \in {"unknown", "big", "wint"} -> "skip"       \* address-dependent or beyond the native path
+      [] OTHER -> "err"                                     \* bool, void, ...: not a number
+WithDirArgs(P, args) ==
+    [P EXCEPT !.items = [i \in 1..Len(P.items) |->
+        IF HasArgExpr(P.items[i]) /\ args[i].t = "int" THEN [P.items[i] EXCEPT !.n = args[i].v] ELSE P.items[i]]]
 
 \* result: [t |-> "ok" | "err" | "skip" (not size-static / beyond the native path), out, syms]
+RECURSIVE Assemble(_)
 Assemble(P) ==
     LET d == Declare(P.items, 1, <<>>, {}, <<>>, <<>>) IN
     IF ~d.ok THEN [t |-> "err", why |-> "declaration", out |-> <<>>, syms |-> <<>>]
+    ELSE IF \E i \in 1..Len(P.items) : HasArgExpr(P.items[i])
+    THEN LET args == DirArgs(P, d)
+             st == {DirArgStatus(args[i]) : i \in {i \in 1..Len(P.items) : HasArgExpr(P.items[i])}}
+         IN IF "err" \in st THEN [t |-> "err", why |-> "directive-argument", out |-> <<>>, syms |-> <<>>]
+            ELSE IF "skip" \in st THEN [t |-> "skip", why |-> "address-dependent-directive", out |-> <<>>, syms |-> <<>>]
+            ELSE Assemble([P EXCEPT !.items = [i \in 1..Len(P.items) |->
+                    IF HasArgExpr(P.items[i]) THEN [P.items[i] EXCEPT !.n = args[i].v, !.e = [k |-> "none"]] ELSE P.items[i]]])
     ELSE
     LET cands == [i \in 1..Len(P.items) |-> IF P.items[i].k = "instr" THEN Match(P, P.items[i].toks) ELSE {}]
     IN  IF \E i \in 1..Len(P.items) : P.items[i].k = "instr" /\ cands[i] = {}
@@ -384,18 +436,22 @@ Assemble(P) ==
         ELSE IF \E i \in 1..Len(P.items) : \E j \in 1..Len(sizes[i]) : sizes[i][j] < 0
         THEN [t |-> "skip", why |-> "not-size-static", out |-> <<>>, syms |-> <<>>]
         ELSE
-    LET pos == Positions(P, sizes, 1, 0, <<>>)
+    LET pos == Positions(P, sizes)
         labels == {i \in 1..Len(P.items) : P.items[i].k = "label"}
         consts == {i \in 1..Len(P.items) : P.items[i].k = "const"}
         sym0 == [x \in {d.names[i] : i \in labels \cup consts} |->
                     LET i == CHOOSE i \in labels \cup consts : d.names[i] = x IN
-                    IF i \in labels THEN IntV(pos[i] \div 8, -1)
+                    IF i \in labels THEN IntV(AddrOfItem(P, pos, i), -1)
                     ELSE IF HasDefine(P, x) THEN DefineOf(P, x) ELSE UnknownV]
         symv == ConstFix(P, d, pos, sym0, Cardinality(consts) + 1)
     IN  IF \E k \in 1..Len(Defines(P)) : Defines(P)[k].name \notin {d.names[i] : i \in consts}
         THEN [t |-> "err", why |-> "unused-define", out |-> <<>>, syms |-> <<>>]
-        ELSE IF \E i \in labels : pos[i] % 8 # 0
+        ELSE IF \E i \in labels : MisalignedItem(P, pos, i)
         THEN [t |-> "err", why |-> "misaligned-label", out |-> <<>>, syms |-> <<>>]
+        ELSE IF \E i \in 1..Len(P.items) : P.items[i].k = "addr" /\ ~AddrInRange(Banks(P)[pos[i].b], P.items[i].n)
+        THEN [t |-> "err", why |-> "addr-out-of-bank", out |-> <<>>, syms |-> <<>>]
+        ELSE IF \E i \in 1..Len(P.items) : P.items[i].k = "align" /\ P.items[i].n = 0
+        THEN [t |-> "err", why |-> "align-zero", out |-> <<>>, syms |-> <<>>]
         ELSE IF \E x \in DOMAIN symv : symv[x].t \in {"err", "failed", "unknown"}
         THEN [t |-> "err", why |-> "constant", out |-> <<>>, syms |-> <<>>]
         ELSE IF \E x \in DOMAIN symv : symv[x].t = "big"
@@ -431,8 +487,8 @@ Assemble(P) ==
         ELSE IF \E p \in flat : enc[p[1]][p[2]].t \in {"skip", "big"}
         THEN [t |-> "skip", why |-> "wide-or-size-changing", out |-> <<>>, syms |-> <<>>]
         ELSE
-    \* layout: every written element is an item of the default bank
-    LET bank == [unit |-> 8, addr |-> 0, size |-> -1, outp |-> 0, fill |-> FALSE, labelalign |-> 0]
+    \* layout: labels, written elements and reservations, each in its bank (Layout.tla)
+    LET banks == Banks(P)
         RECURSIVE Elems(_, _, _, _)
         Elems(i, j, cur, acc) ==
             IF i > Len(P.items) THEN acc
@@ -440,18 +496,21 @@ Assemble(P) ==
                  IF it.k \in {"instr", "data"}
                  THEN IF j > Len(enc[i]) THEN Elems(i + 1, 1, 0, acc)
                       ELSE Elems(i, j + 1, cur + sizes[i][j],
-                                 Append(acc, [kind |-> "w", bank |-> 1, pos |-> pos[i] + cur, size |-> sizes[i][j],
+                                 Append(acc, [kind |-> "w", bank |-> pos[i].b, pos |-> pos[i].p + cur, size |-> sizes[i][j],
                                               bits |-> enc[i][j].bits]))
                  ELSE IF it.k = "res"
-                 THEN Elems(i + 1, 1, 0, Append(acc, [kind |-> "r", bank |-> 1, pos |-> pos[i], size |-> it.n * 8, bits |-> <<>>]))
+                 THEN Elems(i + 1, 1, 0, Append(acc, [kind |-> "r", bank |-> pos[i].b, pos |-> pos[i].p,
+                                                      size |-> it.n * banks[pos[i].b].unit, bits |-> <<>>]))
+                 ELSE IF it.k = "label"
+                 THEN Elems(i + 1, 1, 0, Append(acc, [kind |-> "l", bank |-> pos[i].b, pos |-> pos[i].p, size |-> 0, bits |-> <<>>]))
                  ELSE Elems(i + 1, 1, 0, acc)
         elems == Elems(1, 1, 0, <<>>)
-    IN  IF ~LayoutOK(<<bank>>, elems)
+    IN  IF ~LayoutOK(banks, elems)
         THEN [t |-> "err", why |-> "layout", out |-> <<>>, syms |-> <<>>]
-        ELSE LET n == ExpectedLen(<<bank>>, elems)
+        ELSE LET n == ExpectedLen(banks, elems)
                  out == [p \in 1..n |->
-                            LET cov == {k \in 1..Len(elems) : elems[k].kind = "w" /\ elems[k].pos < p /\ p <= elems[k].pos + elems[k].size}
-                            IN IF cov = {} THEN 0 ELSE LET k == CHOOSE k \in cov : TRUE IN elems[k].bits[p - elems[k].pos]]
+                            LET cov == {k \in 1..Len(elems) : elems[k].kind = "w" /\ Lo(banks, elems[k]) < p /\ p <= Hi(banks, elems[k])}
+                            IN IF cov = {} THEN 0 ELSE LET k == CHOOSE k \in cov : TRUE IN elems[k].bits[p - Lo(banks, elems[k])]]
              IN [t |-> "ok", why |-> "", out |-> out, syms |-> symv]
 
 (***************************************************************************)
@@ -471,7 +530,7 @@ Assemble(P) ==
 (***************************************************************************)
 ClaimEnv(P, d, claim, symv, i) ==
     WithFns(P, [x \in DOMAIN symv \cup {"$", "pc", "#ctx"} |->
-        IF x \in {"$", "pc"} THEN (IF claim.pos[i] % 8 = 0 THEN IntV(claim.pos[i] \div 8, -1) ELSE ErrV)
+        IF x \in {"$", "pc"} THEN (IF claim.pos[i] % 8 = 0 THEN IntV(claim.pos[i] \div 8, -1) ELSE ErrV)     \* (default bank)
         ELSE IF x = "#ctx" THEN CtxVal(d.ctxs[i])
         ELSE symv[x]])
 
@@ -489,7 +548,8 @@ Certificate(P, claim) ==
         ELSE IF \E x \in declared : symOf(x).wide \/ ~symOf(x).int THEN "skip:wide-or-non-integer-symbol"
         ELSE
     LET symv == [x \in declared |-> IntV(symOf(x).v, -1)]
-        pos == Positions(P, claim.sizes, 1, 0, <<>>)
+        posb == Positions(P, claim.sizes)
+        pos == [i \in 1..n |-> posb[i].p]
     IN  IF pos # claim.pos THEN "positions"
         ELSE IF \E i \in 1..n : P.items[i].k = "label" /\
                     (pos[i] % 8 # 0 \/ symv[d.names[i]].v # pos[i] \div 8) THEN "label"
